@@ -7,6 +7,7 @@ Case lines (shared with harness/c09/c09.c):
   script <oid> <kind> <ops>      oid: u<k> | o<k> | k<k> (k-th connect attempt: ops = err | rej)
                                  kind: logon | input | cmd:<verb> | netdead | hb | co:<tag> | reset | cleanup | prompt | it:<tag> | connect
   vapply o<k> do_ops <ops>       ops at set-up time
+  preload ok,err,...|epilog-err  preload_objects(): epilog() names one file p<i> per entry; `err` = that file fails to load
   step <action>...               tick[:<dt>] conn:c<k> send:c<k>:<text> close:c<k> reset:c<k> cin:<text> idle
   run
 ops (';' separated): ok | err | cerr | dest:<oid|me> | co:<delay>:<tag> | hb:<n> | w:<text> | meh:<mode> | it:<tag>
@@ -80,6 +81,7 @@ def parseAction (s : String) : Option Action :=
 inductive Setup
   | clone (k : Nat)
   | ops (o : Oid) (l : List Op)
+  | preload (epilogRaises : Bool) (files : List (String × Bool))
 
 structure Parsed where
   mode : Mode := .net
@@ -128,6 +130,14 @@ def parseLine (p : Parsed) (line : String) : Parsed :=
     match parseOid o, parseOps ops with
     | some o, some l => { p with setup := p.setup ++ [.ops o l] }
     | _, _ => badl
+  | ["preload", "epilog-err"] => { p with setup := p.setup ++ [.preload true []] }
+  | ["preload", spec] =>
+    let bs := spec.splitOn ","
+    if bs.all (fun b => b == "ok" || b == "err") then
+      let files := (List.range bs.length).map (fun i => (s!"p{i + 1}", bs.getD i "ok" == "err"))
+      { p with setup := p.setup ++ [.preload false files],
+               expect := { p.expect with preloads := p.expect.preloads ++ files.map (·.1) } }
+    else badl
   | "step" :: acts =>
     let l := acts.map parseAction
     if l.all Option.isSome then
@@ -166,6 +176,7 @@ def applySetup (S : Scripts) (w : W) : Setup → W
     { w with objList := k :: w.objList,
              nextReset := fun x => if x = k then w.now + resetDuration / 2 else w.nextReset x }
   | .ops o l => (runOps (runHook S hookFuel) o l w).1
+  | .preload e files => preloadObjects e files w
 
 def w0Of (p : Parsed) (S : Scripts) : W :=
   p.setup.foldl (applySetup S) { mode := p.mode, meh := p.meh }
@@ -185,6 +196,8 @@ def render : Ev → String
   | .tReset o => s!"t reset {o.name}"
   | .tCleanup o => s!"t cleanup {o.name}"
   | .tPrompt o => s!"t prompt {o.name}"
+  | .tEpilog => "t epilog"
+  | .tPreload n => s!"t preload {n}"
   | .tIt o t l => (s!"t it {o.name} {t} {l}").trimAsciiEnd.toString
   | .xIt o t => s!"x it {o.name} {t}"
   | .xErr who => s!"x err {who}"
@@ -216,6 +229,8 @@ def parseEv (line : String) : Ev :=
   | ["t", "co", o, t] => match parseOid o with | some o => .tCo o t | none => .crash line
   | ["t", "reset", o] => match parseOid o with | some o => .tReset o | none => .crash line
   | ["t", "cleanup", o] => match parseOid o with | some o => .tCleanup o | none => .crash line
+  | ["t", "epilog"] => .tEpilog
+  | ["t", "preload", n] => .tPreload n
   | ["t", "prompt", o] => match parseOid o with | some o => .tPrompt o | none => .crash line
   | ["t", "it", o, t] => match parseOid o with | some o => .tIt o t "" | none => .crash line
   | ["t", "it", o, t, l] => match parseOid o with | some o => .tIt o t l | none => .crash line
